@@ -19,7 +19,7 @@ import sys
 # groups of functions that hand-written models transcribe (none of them is covered by a translator)
 GROUPS: dict[str, list[tuple[str, str]]] = {
     # _build_evaluator / _build_vector_evaluator / the loop of _build_evaluator_iterative are translated whole (py2lean_build.py -> Generated/BuildStep, Props/BuildTie)
-    "compile": [("core/compiler.py", n) for n in ("compile_expression", "_compile_cached", "_estimate_tree_depth", "_param_value",
+    "compile": [("core/compiler.py", n) for n in ("compile_expression", "_param_value",
                                                    "compile_to_dict_function", "CompiledExpression")],
     "jacobian": [("core/compiler.py", n) for n in ("compile_gradient", "_compile_vectorized_power_gradient",
                                                     "_compile_vectorized_unary_gradient")]
@@ -45,11 +45,11 @@ GROUPS: dict[str, list[tuple[str, str]]] = {
     # Problem.variables: memo, shortcut test and general path are translated (py2lean_state.gen_problem_variables)
     "problem_read": [("problem.py", f"Problem.{m}") for m in ("n_constraints", "summary",
                                                                "objective", "sense", "constraints")],
-    "get_variables": [("core/expressions.py", "get_all_variables"), ("core/expressions.py", "_get_variables_iterative"),
-                      ("core/expressions.py", "_estimate_tree_depth")]
+    # get_all_variables and the three left-spine `_estimate_tree_depth` are translated (py2lean_spine.py)
+    "get_variables": [("core/expressions.py", "_get_variables_iterative")]
 ,   # the get_variables methods of all classes are translated (py2lean_vars.py)
     # _gradient_iterative: rule templates (gen_tables) + control skeleton (py2lean_graditer) are translated
-    "iterative": [("core/autodiff.py", "_estimate_tree_depth")],
+    "iterative": [("core/autodiff.py", "gradient")],
     # increased_recursion_limit is translated (py2lean_post.gen_limit_shape -> Generated/HookShape, Props/HookTie)
     "solve": [("problem.py", "Problem.solve")],
 }
